@@ -45,4 +45,6 @@ Inductive tok :=
 | TDecresc (len : list ch) (v1 v2 : Z)             (* Cresc / Decresc *)
 (* PLAY(part, ...) with literal parts; STR / Str definitions with a literal value *)
 | TPlay (args : list (option marg)) (lineno : Z)
-| TDefStr (name : list ch) (v : option marg).
+| TDefStr (name : list ch) (v : option marg)
+(* text meta events: value_i = the meta type of the table row, the FIRST argument ({text} / "text" / an integer literal / nothing) *)
+| TMetaText (ty : Z) (a : option marg).
